@@ -262,7 +262,7 @@ def canon(e, ren=None):
     if k == "Ret":
         return "return %s" % c(e.get("e"))
     if k == "Break":
-        return "break%s%s" % ((" '" + e["label"]) if e.get("label") else "", (" " + c(e["e"])) if e.get("e") else "")
+        return "break%s%s" % ((" " + e["label"]) if e.get("label") else "", (" " + c(e["e"])) if e.get("e") else "")
     if k == "Continue":
         return "continue"
     if k == "If":
@@ -753,8 +753,9 @@ def compile_pat(p):
     seen = set()
     i = 0
     while i < len(p):
-        if p[i] == "{":
-            j = p.index("}", i)
+        j = p.find("}", i) if p[i] == "{" else -1
+        if p[i] == "{" and j > 0 and re.match(r"^\*?[A-Za-z_][A-Za-z_0-9]*$|^\*$", p[i + 1:j]) \
+                and p[i + 1:j] not in ("break", "continue", "return", "true", "false", "self"):
             name = p[i + 1:j]
             if name.startswith("*"):
                 # {*} or {*name}: any balanced text (non-greedy)
